@@ -47,7 +47,14 @@ fn build(fmt: &str, g: &Grid, variant: u8) -> Vec<u8> {
     match fmt {
         "xlsx" => {
             let mut book = xlsx::XBook::default();
-            let cells = g.iter().map(|((r, c), v)| xlsx::XCell::new(*r, *c, match v { Data::Float(f) => xlsx::XVal::Num(format!("{f}")), Data::String(s) => xlsx::XVal::InlineStr(xlsx::XText::plain(s)), _ => xlsx::XVal::None })).collect();
+            let mut cells: Vec<xlsx::XCell> = g.iter().map(|((r, c), v)| xlsx::XCell::new(*r, *c, match v { Data::Float(f) => xlsx::XVal::Num(format!("{f}")), Data::String(s) => xlsx::XVal::InlineStr(xlsx::XText::plain(s)), _ => xlsx::XVal::None })).collect();
+            // variant 3: formatted but value-less cells (and a formula without cached value) below the last value: they are not data
+            if variant == 3 {
+                let below = g.keys().map(|k| k.0 + 2).max().unwrap_or(2).min(1_048_570);
+                book.styles = Some(xlsx::XStyles { num_fmts: vec![], cell_xfs: vec![0, 2], cell_style_xfs: vec![0], omit_general_numfmt: false });
+                for (r, c) in [(below, 1u32), (below + 1, 0), (below + 1, 1)] { let mut x = xlsx::XCell::new(r, c, xlsx::XVal::None); x.style = Some(1); cells.push(x); }
+                let mut f = xlsx::XCell::new(below + 2, 0, xlsx::XVal::None); f.formula = Some(xlsx::XFormula::Plain("A1".into())); cells.push(f);
+            }
             book.sheets.push(xlsx::XSheet::new("S", cells));
             xlsx::write(&book, &xlsx::XEnc { dim: if stale { xlsx::DimMode::StaleRows } else { xlsx::DimMode::Exact }, row_r: if variant == 2 { xlsx::RMode::Implicit } else { xlsx::RMode::Explicit }, cell_r: if variant == 2 { xlsx::RMode::Implicit } else { xlsx::RMode::Explicit }, ..Default::default() })
         }
@@ -180,7 +187,7 @@ fn corpus_header_rows(rep: &Report) {
 pub fn check(rep: &Report) {
     corpus_header_rows(rep);
     let t = crate::thorough(&rep.tier);
-    rep.rule("sheets = every subset of rows 0..4 non-empty (32 patterns) x column offset {0,2} x 4 formats (xlsx / xlsb also with a stale dimension record, xlsx with implicit references, ods with the first row in table:table-header-rows and the rest in table:table-rows); options = FirstNonEmptyRow and Row(n) for n in {0..6, 65535, 65536, 1048576, u32::MAX}; histories = every sequence of <= 3 option settings over all 12 options, plus every sequence of 4 over {First, Row(1), Row(3), Row(65536)} (thorough: all sequences of 4 over all options), a read after every step on one reader (xls: every option also handed over at construction through XlsOptions); plus, on every sheet of every fixture workbook of the repository that opens, Row(n) for n around its first and last used row against its own default read; non-trivial = history with a Row(n) option on a non-empty sheet; distinct by (format, sheet, history)");
+    rep.rule("sheets = every subset of rows 0..4 non-empty (32 patterns) x column offset {0,2} x 4 formats (xlsx / xlsb also with a stale dimension record, xlsx with implicit references or with formatted value-less cells below the last value, ods with the first row in table:table-header-rows and the rest in table:table-rows); options = FirstNonEmptyRow and Row(n) for n in {0..6, 65535, 65536, 1048576, u32::MAX}; histories = every sequence of <= 3 option settings over all 12 options, plus every sequence of 4 over {First, Row(1), Row(3), Row(65536)} (thorough: all sequences of 4 over all options), a read after every step on one reader (xls: every option also handed over at construction through XlsOptions); plus, on every sheet of every fixture workbook of the repository that opens, Row(n) for n around its first and last used row against its own default read; non-trivial = history with a Row(n) option on a non-empty sheet; distinct by (format, sheet, history)");
     rep.assume("columns of the range under Row(n) are not constrained (the statement fixes only the first row and the cell values)");
     let ns: Vec<u32> = vec![0, 1, 2, 3, 4, 5, 6, 65535, 65536, 1_048_576, u32::MAX];
     let mut opts: Vec<Opt> = vec![Opt::First];
@@ -193,7 +200,7 @@ pub fn check(rep: &Report) {
     if t { for a in &opts { for b in &opts { for c in &opts { for d in &opts { hists.push(vec![*a, *b, *c, *d]); } } } } }
     else { for a in small { for b in small { for c in small { for d in small { hists.push(vec![a, b, c, d]); } } } } }
     let mut jobs = vec![];
-    for f in FORMATS { for p in 0..34u32 { if p == 33 && f != "xls" { continue; } for off in [0u32, 2] { for variant in [0u8, 1, 2] { if (variant == 1 && f == "xls") || (variant == 2 && f != "xlsx") { continue; } jobs.push((f, p, off, variant)); } } } }
+    for f in FORMATS { for p in 0..34u32 { if p == 33 && f != "xls" { continue; } for off in [0u32, 2] { for variant in [0u8, 1, 2, 3] { if (variant == 1 && f == "xls") || (variant >= 2 && f != "xlsx") { continue; } jobs.push((f, p, off, variant)); } } } }
     let nh = hists.len() as u64;
     jobs.par_iter().for_each(|(fmt, p, off, variant)| {
         let stale = &(*variant == 1);
@@ -220,7 +227,7 @@ pub fn check(rep: &Report) {
                     for (i, (r, o)) in ranges.iter().zip(h.iter()).enumerate() {
                         if let Err((kind, detail)) = check_read(r, &g, *o) {
                             let c = match o { Opt::Row(n) => n_class(&g, *n), _ => "default" };
-                            rep.fail(&format!("{fmt}/{kind}/{c}{}{}", if i > 0 { "/after-option-change" } else { "" }, match *variant { 1 if *fmt == "ods" => "/rows-in-grouping-elements", 1 => "/stale-dimension", 2 => "/implicit-references", _ => "" }), &format!("step {i} under {o:?}: {detail} (history {h:?})"), replay);
+                            rep.fail(&format!("{fmt}/{kind}/{c}{}{}", if i > 0 { "/after-option-change" } else { "" }, match *variant { 1 if *fmt == "ods" => "/rows-in-grouping-elements", 1 => "/stale-dimension", 2 => "/implicit-references", 3 => "/value-less-cells-below", _ => "" }), &format!("step {i} under {o:?}: {detail} (history {h:?})"), replay);
                             break;
                         }
                     }
